@@ -122,6 +122,7 @@ func runMsgTree(r *hx.R, n int, w *hx.W, _ []string) error {
 	}
 	kindURL := map[string]string{"eth": sdk.MsgTypeURL(&evm.MsgEthereumTx{}), "comm": sdk.MsgTypeURL(&stakingtypes.MsgEditValidator{}),
 		"send": sdk.MsgTypeURL(&banktypes.MsgSend{}), "exec": sdk.MsgTypeURL(&authz.MsgExec{})}
+	var forgeFrom sdk.AccAddress
 	var build func(ctx sdk.Context, m mnode) (sdk.Msg, error)
 	build = func(ctx sdk.Context, m mnode) (sdk.Msg, error) {
 		switch m.kind {
@@ -129,7 +130,13 @@ func runMsgTree(r *hx.R, n int, w *hx.W, _ []string) error {
 			nonce := a.EvmKeeper.GetAccNonce(ctx, ethAcc.EthAddr)
 			to := gethcommon.HexToAddress("0x00000000000000000000000000000000000000aa")
 			sp := ethMsgSpec{from: ethAcc, nonce: nonce, gasLimit: 21000, price: big.NewInt(1_000_000_000_000), value: big.NewInt(1_000_000_000_000), to: &to}
-			return sp.build()
+			em, err := sp.build()
+			if err == nil && forgeFrom != nil && r.Chance(2, 3) {
+				// `from` is an unauthenticated field of the wire message: inside a wrapper the attacker sets it to whatever the
+				// wrapper's signer check would like to see (the grantee, the gov account, the contract)
+				em.From = gethcommon.BytesToAddress(forgeFrom).Hex()
+			}
+			return em, err
 		case "comm":
 			return mkStaking(ctx, m.who, int64(m.arg)), nil
 		case "send":
@@ -143,6 +150,9 @@ func runMsgTree(r *hx.R, n int, w *hx.W, _ []string) error {
 			return authz.NewMsgGrant(acctAddr(m.who), acctAddr(m.arg), authz.NewGenericAuthorization(url), &exp)
 		case "exec":
 			var in []sdk.Msg
+			saved := forgeFrom
+			forgeFrom = acctAddr(m.who)
+			defer func() { forgeFrom = saved }()
 			for _, x := range m.inner {
 				im, err := build(ctx, x)
 				if err != nil {
@@ -154,6 +164,9 @@ func runMsgTree(r *hx.R, n int, w *hx.W, _ []string) error {
 			return &e, nil
 		case "proposal":
 			var in []sdk.Msg
+			saved := forgeFrom
+			forgeFrom = a.AccountKeeper.GetModuleAddress("gov")
+			defer func() { forgeFrom = saved }()
 			for _, x := range m.inner {
 				im, err := build(ctx, x)
 				if err != nil {
@@ -169,6 +182,9 @@ func runMsgTree(r *hx.R, n int, w *hx.W, _ []string) error {
 				Value   string `json:"value"`
 			}
 			var msgs []map[string]any
+			saved := forgeFrom
+			forgeFrom = contract
+			defer func() { forgeFrom = saved }()
 			for _, x := range m.inner {
 				im, err := build(ctx, x)
 				if err != nil {
@@ -231,7 +247,11 @@ func runMsgTree(r *hx.R, n int, w *hx.W, _ []string) error {
 		x := (o + 1 + r.Pick(2)) % 3
 		rt := rates[r.Pick(len(rates))]
 		comm := func(op int) mnode { return mnode{kind: "comm", who: op, arg: rt} }
-		switch r.Pick(14) {
+		switch r.Pick(16) {
+		case 14: // a governance proposal that carries an Ethereum tx (its unauthenticated `from` names the gov account)
+			return []mnode{{kind: "proposal", who: o, inner: []mnode{{kind: "eth"}}}}
+		case 15:
+			return []mnode{{kind: "proposal", who: o, inner: []mnode{{kind: "exec", who: 4, inner: []mnode{{kind: "eth"}}}}}}
 		case 0:
 			return []mnode{comm(o)}
 		case 1:
